@@ -248,6 +248,16 @@ def run(ctx):
                 ctx.case((kind, json.dumps(inst["shape"])))
                 for msg in check_spec_instance(ift, inst):
                     ctx.violation(dict(kind=kind, operator=msg.split(" ")[0]), msg[:600], replay=dict(instance=inst))
+    # the exact matrices of C35's index-map operators belong to "the action equals the documented definition" as well: a third of them here
+    from props.C35 import check_index_op
+    for kind in ("interp1", "interp2", "regrid", "zeropad", "mask"):
+        r = ctx.tlc("IndexOps", 'CONSTANTS Kind = "%s"\nSPECIFICATION Spec\n' % kind + LAWS + "INVARIANT Emit\n", label=kind, workers=1, deadlock=False)
+        with quiet():
+            for inst in r.emitted[ctx.seed % 3::3]:
+                n += 1
+                ctx.case((kind, json.dumps([inst["shape"], inst["dist"], inst["pts"]])))
+                for msg in check_index_op(ift, inst):
+                    ctx.violation(dict(kind=kind, operator=msg.split(" ")[0]), msg[:600], replay=dict(instance35=inst))
     rs = np.random.RandomState(11)
     cat = catalogue(ift)
     with quiet():
@@ -266,7 +276,10 @@ def replay(ctx, doc):
     import nifty.cl as ift
     c = doc["case"]
     with quiet():
-        if "instance" in c:
+        if "instance35" in c:
+            from props.C35 import check_index_op
+            msgs = check_index_op(ift, c["instance35"])
+        elif "instance" in c:
             msgs = check_spec_instance(ift, c["instance"])
         else:
             mk = dict(catalogue(ift))[c["law"]]
